@@ -294,4 +294,14 @@ func TestPropSerialPadded(t *testing.T) {
 	})
 }
 
+// Lines longer than 2^16 columns: positions of bindings and functions behind the 16-bit column boundary.
+func TestPropSerialWide(t *testing.T) {
+	vk.Rapid(t, subSerial, vk.N(300, 2500), func(t *rapid.T) gen.Program {
+		p := gen.Generate(t, gen.Config{MaxStmts: 30, ErrRate: 0.05, BigConsts: true, Docstrings: true})
+		p.Src = gen.Pad(t, p.Src, []int{65500, 65536, 70000, 131100}[vk.Uniform(t, 4)])
+		p.Features = append(p.Features, "padded", "wide-line")
+		return p
+	})
+}
+
 func TestReplay(t *testing.T) { vk.Replay(t) }
